@@ -289,6 +289,8 @@ def _a4():
                 yield ('A4', c, lit, 'mul', 'add', 1)
             for c in ('F32Z', 'F32E', 'F64N'):          # an inexact inner result feeds the outer operation
                 yield ('A4', c, '1.5', 'add', 'mul', 1)
+            for c in ('F64P', 'F32N'):                  # a product with a signed-zero literal (NaN for inf/NaN operands)
+                yield ('A4', c, '-0.0', 'mul', 'add', 0)
 
     def build(c, lit, o1, o2, ai):
         args = SS[ai]
